@@ -17,7 +17,7 @@ Oracle (independent of the model; a numeric TEST, labelled as such in the eviden
 Floating-point cancellation of cdf(1)-cdf(0) in the left tail (D16) is outside the theorems; the oracle finds it and reports
 it with the signature {"kind": "float-tail", "side": "left"}.
 """
-import json, math, os, pickle, subprocess
+import json, math, os, pickle, subprocess, warnings
 from fractions import Fraction
 import numpy as np
 from qgv import core, pyexpr
@@ -738,6 +738,7 @@ def gaussian_ctor_cases(ctx, ir):
         loc = rng.choice([rng.uniform(-12, 13), 0.5 - rng.uniform(5, 45) * scale, 0.5 + rng.uniform(5, 45) * scale])
         cast_l, cast_s = rng.choice([float, np.float64, float]), rng.choice([float, np.float64, float])
         vals.append((cast_l(loc), cast_s(scale)))
+    vals += [(0.5, 0.0), (0.5, -0.25), (0.5, -1), (0.5, float("inf")), (0.5, float("nan")), (float("nan"), 1.0), (float("inf"), 1.0), (0.3, -0.0)]
     vals += [(1, 1), (0, 2), (np.float64(0.5), 1), (0.5, np.float32(0.25)), (np.float32(0.5), 0.25), (0.5, True), (True, 0.5),
              (0.5, Fraction(1, 4)), (0.5, np.int64(1)), (0.5, "0.25"), (0.5, None), (0.5, [0.25]),
              (0.5, np.array(0.25)), (0.5, np.array([0.25])), (0.5, 1 + 0j), (100.0, 1.0), (-100.0, 1.0), (0.5, 1e-3), (0.5, 1e-300)]
@@ -750,16 +751,53 @@ def gaussian_ctor_cases(ctx, ir):
             r = {"err": type(e).__name__}
         env = {"loc": loc, "scale": scale}
         checks = [type(env[v]) in valid for v in g["type_checked"]]
+        dom = g.get("domain") or {"finite": [], "positive": []}
+        if all(checks) and (dom["finite"] or dom["positive"]):
+            # the domain guard read from the source (asserted after the type checks, before the denominator is computed)
+            try:
+                checks.append(bool(all(np.isfinite(env[v]) for v in dom["finite"]) and all(env[v] > 0 for v in dom["positive"])))
+            except TypeError:
+                impl_exc = None
+                continue                                    # a loc that is not a number raises TypeError in np.isfinite: outside the model
         try:
             den = float(gen.evaluate(g["denominator"], {"loc": float(loc), "scale": float(scale)}, norm)) if all(checks) else 1.0
         except Exception:                                   # noqa
             den = 1.0
         if not math.isfinite(den):
-            continue                                        # NaN denominators (scale <= 0) have no exact counterpart: probed separately
+            continue                                        # NaN denominators have no exact counterpart: covered by accepted_edge_objects
         reqs.append({"op": "gaussian_validate", "type_checks": checks, "denominator": fs(Fraction(den))})
         impl.append(r)
         descr.append(f"GaussianPulse({loc!r}, {scale!r})")
     return reqs, impl, descr
+
+
+def accepted_edge_objects():
+    """the first sentence of C13 on the inputs where it is most likely to fail: whatever `GaussianPulse(loc, scale)` ACCEPTS must be a
+    pulse - finite non-negative waveform, parametrisation 0 at 0 and 1 at 1.  Degenerate standard deviations (0, negative, nan, inf,
+    denormal) and non-finite locations of the accepted types; the constructor is free to reject them, it is not free to return an
+    object whose waveform is nan.  (A denormal scale such as 5e-324 is NOT in the list: the peak value 1/(scale sqrt(2 pi)) of that Gaussian
+    exceeds the largest double, so `inf` there is overflow of a correct formula, not a defect.)  Returns list of (description, failure)."""
+    from quantum_gates._gates.pulse import GaussianPulse
+    bad = []
+    nan, inf = float("nan"), float("inf")
+    cases = [(0.5, 0.0), (0.5, -0.0), (0.5, -0.25), (0.5, -1.0), (0.5, nan), (0.5, inf), (0.5, -inf), (0.5, np.float64(-0.25)),
+             (0.5, 0), (0.5, -1), (nan, 1.0), (inf, 1.0), (-inf, 1.0), (nan, nan), (0.0, -3.0), (np.float64(nan), 0.25), (0.5, 1e308), (0.5, 1e-200)]
+    for loc, scale in cases:
+        d = f"GaussianPulse({loc!r}, {scale!r})"
+        try:
+            with warnings.catch_warnings():
+                warnings.simplefilter("ignore")
+                with np.errstate(all="ignore"):
+                    p = GaussianPulse(loc, scale)
+                    w = [float(p.get_pulse()(x)) for x in (0.0, 0.25, 0.5, 1.0)]
+                    F0, F1 = float(p.get_parametrization()(0.0)), float(p.get_parametrization()(1.0))
+        except Exception:                                    # noqa  (rejected: fine)
+            continue
+        if not all(math.isfinite(v) and v >= 0 for v in w):
+            bad.append((d, f"is accepted, but its waveform at 0, 1/4, 1/2, 1 is {w} (not a non-negative finite waveform)"))
+        elif not (abs(F0) <= 1e-9 and abs(F1 - 1) <= 1e-9):
+            bad.append((d, f"is accepted, but its parametrisation runs from {F0!r} to {F1!r} instead of 0 to 1"))
+    return len(cases), bad
 
 
 def outside_domain_probes():
@@ -909,6 +947,9 @@ def main(ctx):
         except Exception as e:                              # noqa
             broken.append(f"Gaussian constructor correspondence: {type(e).__name__}: {str(e)[:300]}")
     cov["outside_domain_probes"] = outside_domain_probes()
+    n_edge, edge_bad = accepted_edge_objects()
+    ctx.count(n_edge)
+    cov["accepted_edge_objects_checked"] = n_edge
 
     # ---- 5. Gaussian pulses against 50 digits (numeric TEST; floats are outside the theorems)
     gcases = gaussian_cases(ctx)
@@ -1052,6 +1093,10 @@ def main(ctx):
         unexplained += 1
         ctx.violation({"kind": "oracle", "part": "validator", "family": c["family"]}, validator_replay(c, what),
                       f"Pulse(f, F, perform_checks={c.get('checks', True)}) on family '{c['family']}': {what}")
+    for d, what in edge_bad[:1]:
+        unexplained += 1
+        ctx.violation({"kind": "oracle", "part": "gaussian-degenerate-input-accepted"},
+                      {"kind": "edge", "failure": what, "input": d, "all": [x[0] for x in edge_bad]}, f"{d} {what}")
     for name, bad in cfails[:2]:
         unexplained += 1
         ctx.violation({"kind": "oracle", "part": "constant", "object": name}, {"kind": "constant", "object": name, "failure": bad},
@@ -1095,6 +1140,12 @@ def replay(ctx, path):
             return 1 if info["failures"] else 0
         print("  constructor raised", info.get("exc"), info.get("msg"))
         return 1 if "raised" in rp.get("failure", "") or "rejects" in rp.get("failure", "") else 0
+    if kind == "edge":
+        n, bad = accepted_edge_objects()
+        for d, what in bad:
+            print(d, what)
+        print("oracle:", "fails" if bad else "holds (every accepted degenerate input is a pulse, the others are rejected)")
+        return 1 if bad else 0
     if kind == "validator":
         c = {"f": PW(rp["f"]["breaks"], rp["f"]["polys"]), "F": PW(rp["F"]["breaks"], rp["F"]["polys"]), "checks": rp["checks"],
              "eps": Fraction(rp["eps"]), "n": rp["n"], "use_lookup": rp.get("use_lookup", False)}
